@@ -36,7 +36,23 @@ def _c01_parts(tier):
              "per_fork": 1, "wall_s": 90 if q else 1200}]
 
 
+def _c05_parts(tier):
+    from sim.engines import c05
+    q = tier == "quick"
+    return [{"engine": "c05", "params": c05.default_params(tier), "runs": 12_000 if q else 400_000,
+             "per_fork": 1, "wall_s": 90 if q else 1200}]
+
+
 SPECS = {
+    "C05": {
+        "level": "exploration",
+        "parts": _c05_parts,
+        "rule": "case = history of 1-6 page renders (provider/consumer programs, some failing at a drawn callback, GC "
+                "in between) in one world; distinct = distinct blake2b of (mode, program skeletons, fault positions); "
+                "non-trivial = at least one consumer's inject() is resolved to a provider by the reference model",
+        "real_vs_stub": RENDER_REAL,
+        "assumptions": ["reference renderer = provider stack along the rendered structure (DESIGN.md Appendix A)"],
+    },
     "C01": {
         "level": "exploration",
         "parts": _c01_parts,
